@@ -27,6 +27,7 @@ EXPLANATION = (
     "and cancels a pending start task; other subscribe_* return the remover of their own registration. Arrival-order "
     "behaviour over all streams is not decided."
     ' Added: the unsubscribe function of the voice assistant is located by role and sees the pending start task at call time.'
+    " Also: buffered camera chunks are only dropped with their completed image; the start handler's result is never replaced before the answer."
 )
 ASSUMPTIONS = ["C12 (each message is delivered once to each registered handler)", "C14.R2 (table entries map a message to the model of its type)"]
 
